@@ -443,9 +443,15 @@ theorem rfPass_recreate_fixed (hconv : Converges m) (hdel : ∀ s, m.present (m.
   have hd1 := hc1 (m.delete s) (hdel s)
   have hd2 := hc2 (m.delete s) (hdel s)
   have hds := hdel s
-  cases hp : m.present s <;> cases hr : cfg.readonly <;> cases hc : cfg.createEnabled <;>
-    cases hm : m.meets s <;> cases hpol : cfg.policy <;>
+  cases hp : m.present s <;> cases hde : cfg.deleteIfExists <;> cases hr : cfg.readonly <;>
+    cases hc : cfg.createEnabled <;> cases hm : m.meets s <;> cases hpol : cfg.policy <;>
     simp_all [rfPass, faultAt, mutateUnguarded]
+
+/-- `deleteIfExists`: one fault-free evaluation (the DELETE) and the resource is stable -/
+theorem rfPass_delete_fixed (hde : cfg.deleteIfExists = true) (hdel : ∀ s, m.present (m.delete s) = false) (s : S) :
+    (rfPass m cfg none (rfPass m cfg none s).st).st = (rfPass m cfg none s).st := by
+  have hds := hdel s
+  cases hp : m.present s <;> simp_all [rfPass, faultAt, mutateUnguarded]
 
 theorem rfPass_fixed_after (hconv : Converges m) (hdel : ∀ s, m.present (m.delete s) = false) (s : S) :
     (rfPass m cfg none (iterF (fun s => (rfPass m cfg none s).st) (rfK cfg) s)).st =
@@ -454,7 +460,9 @@ theorem rfPass_fixed_after (hconv : Converges m) (hdel : ∀ s, m.present (m.del
   · simp only [rfK, hpol, if_true, iterF]
     exact rfPass_recreate_fixed m cfg hconv hdel s
   · simp only [rfK, hpol, if_false, iterF]
-    exact rfPass_stable m cfg hconv hpol s
+    cases hde : cfg.deleteIfExists with
+    | true => exact rfPass_delete_fixed m cfg hde hdel s
+    | false => exact rfPass_stable m cfg hconv hpol hde s
 
 end rf
 
